@@ -372,6 +372,10 @@ func C12(c *Ctx) {
 				return false
 			}
 			switch {
+			case strings.Contains(o.CompilePanic, "GOGEN-NO-OUTPUT"):
+				// the go:generate entry point returned normally but derived nothing for a file that uses the API:
+				// neither a rejection (cogen would exit 0) nor an output; an output of an earlier run stays in place
+				c.Rep.Violate(verdict.Violation{Case: p.Name, Sig: "tool-succeeded-without-output", What: "rewriter.GoGen (what cmd/cogen runs) returned without a diagnostic and without deriving a file for a source with an unsupported construct: the tool exits 0 and a stale output of an earlier run keeps being built\n" + o.CompilePanic + "\n--- source\n" + o.CoSource, Replay: replayDoc{Engine: "e1", Program: p, CoSrc: o.CoSource}})
 			case o.CompilePanic != "":
 				if strings.TrimSpace(o.CompilePanic) == "" {
 					c.Rep.Violate(verdict.Violation{Case: p.Name, Sig: "rejected-without-diagnostic", What: "compiler rejected the program with an empty diagnostic\n" + o.CoSource})
